@@ -44,10 +44,14 @@ impl<'a> Gen<'a> {
                 // a structure around another variable that is bound elsewhere (possibly in
                 // several ways, possibly later): projection must walk into it per state
                 if g.w.chance(1, 4) {
-                    return match g.w.below(3) {
+                    return match g.w.below(6) {
                         0 => T::list(vec![T::V(o)]),
                         1 => T::list(vec![T::I(g.w.range(0, 3)), T::V(o)]),
-                        _ => T::cons(T::V(o), T::V(o)),
+                        2 => T::cons(T::V(o), T::V(o)),
+                        // the variable only below the first level (no variable at the top level)
+                        3 => T::list(vec![T::list(vec![T::V(o), T::I(1)]), T::list(vec![T::I(2)])]),
+                        4 => T::list(vec![T::I(g.w.range(0, 3)), T::list(vec![T::I(2), T::list(vec![T::V(o)])])]),
+                        _ => T::list(vec![T::cmp(0, T::V(o), T::I(1))]),
                     };
                 }
             }
